@@ -213,6 +213,29 @@ def vertex_current_flow_betweenness(r, endpoint=0.0):
     return out
 
 
+def vertex_current_flow_betweenness_nodes(r, nodes, endpoint=0.0):
+    """The same sum for a few nodes of a large network, vectorised over the
+    sources (O(n^3) per node)."""
+    Y = admittance(r).real.astype(float)
+    n = len(Y)
+    G = _all_potentials(r)
+    out = {}
+    for i in nodes:
+        acc = 0.0
+        for t in range(n):
+            if t == i or t == 0:
+                # (pairs s < t with i == t carry the end-point value)
+                acc += endpoint * t if t == i else 0.0
+                continue
+            V = G[t][:, :t]                        # columns s < t
+            term = 0.5 * (Y[i][:, None] * np.abs(V[i][None, :] - V)).sum(0)
+            if i < t:
+                term[i] = endpoint                 # s == i
+            acc += float(term.sum())
+        out[i] = 2.0 * acc / (n * (n - 1))
+    return out
+
+
 def edge_current_flow_betweenness(r):
     """ECFB_ij = 2/(n(n-1)) sum_{s<t} Y_ij |V_i - V_j|  (all pairs)."""
     Y = admittance(r).real.astype(float)
